@@ -49,7 +49,10 @@ class L:
         if name == "st":
             return st
         if name in st.frame.vars:
-            return eng.deref(st, st.frame.vars[name])
+            v = st.frame.vars[name]
+            if isinstance(v, Loc) and isinstance(st.load(v), Rec):
+                return v        # objects stay references; use L.field(obj, name)
+            return eng.deref(st, v)
         raise AttributeError(name)
 
     def field(self, obj, name):
@@ -1363,13 +1366,24 @@ class Engine:
                     yield s2, args
                     continue
                 kwnodes = node.keywords
-                if any(k.arg is None for k in kwnodes):
-                    raise Unsupported("**kwargs call")
                 for s3, kwv in self.ev_list([k.value for k in kwnodes], s2):
                     if isinstance(kwv, ExcVal):
                         yield s3, kwv
                         continue
-                    kwargs = {k.arg: v for k, v in zip(kwnodes, kwv)}
+                    kwargs = {}
+                    for k, v in zip(kwnodes, kwv):
+                        if k.arg is None:      # **mapping: concrete key structure required
+                            c = self.deref(s3, v)
+                            if isinstance(c, CDict):
+                                kwargs.update(c.items)
+                            elif isinstance(c, self.B.PendingEmpty):
+                                pass
+                            elif isinstance(c, dict):
+                                kwargs.update(c)
+                            else:
+                                raise Unsupported("** of a mapping with symbolic keys")
+                        else:
+                            kwargs[k.arg] = v
                     yield from self.call(s3, f, args, kwargs, node)
 
     def ex_ListComp(self, node, st):
@@ -1549,6 +1563,9 @@ class Engine:
             return
         if isinstance(f, Closure):
             yield from self.call_closure(st, f, args, kwargs)
+            return
+        if isinstance(f, SRef) and "__call__" in f.t.methods:
+            yield from f.t.methods["__call__"](self, st, f, list(args), kwargs)
             return
         if f in self.contracts:
             self.assumed.add(_qn(f))
